@@ -178,7 +178,7 @@ def tree_stats(root):
     return {"nodes": len(nodes), "depth": depth, "stubs": stubs, "leaves": sum(isinstance(x, Leaf) for _, x in nodes)}
 
 
-def stream_tree(ctx, built, ntables, oracle=None, with_counts=False, max_rows=160, maxdim=3, params="random", name="S-tree"):
+def stream_tree(ctx, built, ntables, oracle=None, with_counts=False, max_rows=160, maxdim=3, params="random", name="S-tree", ncols=None, rows=None):
     """Forest + every tree of 1..3 columns: real vs model dumps (bit-exact). oracle(table, forest, comb, root) evaluates a property."""
     R = ctx.rng
     S = ctx.stream(name, "random tables (1-4 float columns: categorical, continuous, heavy-tailed, outliers, constants, all-null, nulls; "
@@ -186,7 +186,7 @@ def stream_tree(ctx, built, ntables, oracle=None, with_counts=False, max_rows=16
                    "1..3 columns: column ranges, null stand-ins and full tree dumps compared bit for bit; non-trivial = tree with >= 1 split "
                    "(depth >= 1), distinct by table and combination")
     for ti in range(ntables):
-        t = gen_table(R, max_rows=max_rows, params=params)
+        t = gen_table(R, max_rows=max_rows, params=params, ncols=ncols, rows=rows)
         try:
             F, kind = build_real(t)
         except RecursionError:
